@@ -269,52 +269,62 @@ inline void word_end(const Word & w, LD & x, LD & y, LD & th)
   }
 }
 
+// a word whose discriminant is negative only by rounding exists with a vanishing middle part (e.g. the target lies on
+// the first arc): it is kept, the reconstruction test of the caller decides whether it reaches the target
+constexpr LD kWordEps = 1e-9L;
+
 // classical six words (Shkel & Lumelsky form) for start (0,0,alpha) and end (d,0,beta), lengths in units of R
 inline std::vector<Word> six_words(LD d, LD al, LD be)
 {
   std::vector<Word> out;
   const LD sa = std::sin(al), sb = std::sin(be), ca = std::cos(al), cb = std::cos(be), cab = std::cos(al - be);
   {  // LSL
-    const LD tmp = 2 + d * d - 2 * cab + 2 * d * (sa - sb);
-    if (tmp >= 0) {
+    LD tmp = 2 + d * d - 2 * cab + 2 * d * (sa - sb);
+    if (tmp >= -kWordEps) {
+      tmp = std::max(tmp, LD(0));
       const LD th = std::atan2(cb - ca, d + sa - sb);
       out.push_back({{1, 0, 1}, {mod2pi(-al + th), std::sqrt(tmp), mod2pi(be - th)}});
     }
   }
   {  // RSR
-    const LD tmp = 2 + d * d - 2 * cab + 2 * d * (sb - sa);
-    if (tmp >= 0) {
+    LD tmp = 2 + d * d - 2 * cab + 2 * d * (sb - sa);
+    if (tmp >= -kWordEps) {
+      tmp = std::max(tmp, LD(0));
       const LD th = std::atan2(ca - cb, d - sa + sb);
       out.push_back({{-1, 0, -1}, {mod2pi(al - th), std::sqrt(tmp), mod2pi(-be + th)}});
     }
   }
   {  // LSR
-    const LD tmp = -2 + d * d + 2 * cab + 2 * d * (sa + sb);
-    if (tmp >= 0) {
+    LD tmp = -2 + d * d + 2 * cab + 2 * d * (sa + sb);
+    if (tmp >= -kWordEps) {
+      tmp = std::max(tmp, LD(0));
       const LD p  = std::sqrt(tmp);
       const LD th = std::atan2(-ca - cb, d + sa + sb) - std::atan2(-2.0L, p);
       out.push_back({{1, 0, -1}, {mod2pi(-al + th), p, mod2pi(-mod2pi(be) + th)}});
     }
   }
   {  // RSL
-    const LD tmp = d * d - 2 + 2 * cab - 2 * d * (sa + sb);
-    if (tmp >= 0) {
+    LD tmp = d * d - 2 + 2 * cab - 2 * d * (sa + sb);
+    if (tmp >= -kWordEps) {
+      tmp = std::max(tmp, LD(0));
       const LD p  = std::sqrt(tmp);
       const LD th = std::atan2(ca + cb, d - sa - sb) - std::atan2(2.0L, p);
       out.push_back({{-1, 0, 1}, {mod2pi(al - th), p, mod2pi(be - th)}});
     }
   }
   {  // RLR
-    const LD tmp = (6 - d * d + 2 * cab + 2 * d * (sa - sb)) / 8;
-    if (std::abs(tmp) <= 1) {
+    LD tmp = (6 - d * d + 2 * cab + 2 * d * (sa - sb)) / 8;
+    if (std::abs(tmp) <= 1 + kWordEps) {
+      tmp = std::min(LD(1), std::max(LD(-1), tmp));
       const LD p = mod2pi(TWO_PI - std::acos(tmp));
       const LD tt = mod2pi(al - std::atan2(ca - cb, d - sa + sb) + p / 2);
       out.push_back({{-1, 1, -1}, {tt, p, mod2pi(al - be - tt + p)}});
     }
   }
   {  // LRL
-    const LD tmp = (6 - d * d + 2 * cab + 2 * d * (sb - sa)) / 8;
-    if (std::abs(tmp) <= 1) {
+    LD tmp = (6 - d * d + 2 * cab + 2 * d * (sb - sa)) / 8;
+    if (std::abs(tmp) <= 1 + kWordEps) {
+      tmp = std::min(LD(1), std::max(LD(-1), tmp));
       const LD p = mod2pi(TWO_PI - std::acos(tmp));
       const LD tt = mod2pi(-al + std::atan2(-ca + cb, d + sa - sb) + p / 2);
       out.push_back({{1, -1, 1}, {tt, p, mod2pi(mod2pi(be) - al - tt + p)}});
